@@ -60,9 +60,13 @@ def gen(rng: random.Random, tier):
             steps.append(["pub", L, MARK, "@" + L, 0, 8])
         elif r < 0.72:
             steps.append(["pub", L, rng.choice(types), 0, 0, rng.choice([0, 8, 100])])
-        elif r < 0.78:
+        elif r < 0.76:
             steps.append(["ready", L, rng.randint(1, 1 << 20)])
-        elif r < 0.83:
+        elif r < 0.79:
+            # a repeated handshake on a connection whose handshake was already accepted: must not be acknowledged again
+            steps.append(["hello", L, {"mod_id": rng.choice([ids.get(L, 0), 0, 77]), "logger": int(L in logs), "v2": rng.random() < 0.7,
+                                       "v1_after": rng.random() < 0.5}])
+        elif r < 0.84:
             steps.append(["name", L, (b"nm" + L.encode()).hex()])
         elif r < 0.87 and len(live) > 1:
             steps.append(["disc", L])
